@@ -707,4 +707,11 @@ def runFile (q : Quirks) (defines : List (List Char)) (undefs : List Tok) (src :
   let st ← runLines q undefs ⟨ms, [], []⟩ ((splitLines src).map lexLine)
   .ok st.out.reverse
 
+/-- several passes over one source, one per configuration (cppcheck calls simplecpp::preprocess once per configuration on the same
+raw token list): in the model every pass starts from the source and its own `dui` — `preprocess` has no memory across passes.
+(simplecpp does keep something in the raw tokens: `Token::nextcond`, a skip chain written by one pass and used as a shortcut by later
+ones; the chain must never change a result.  The correspondence `preprocess-repeated-passes` holds the real code to that.) -/
+def runPasses (q : Quirks) (src : List Char) (duis : List (List (List Char) × List Tok)) : List (Except XErr (List Tok)) :=
+  duis.map fun d => runFile q d.1 d.2 src
+
 end Cppcheck.PPMacro
